@@ -57,14 +57,16 @@ Defaults   == << [k |-> "none", v |-> ""], [k |-> "none", v |-> ""], [k |-> "int
                  \* a quoted default keeps its kind whatever it spells; an expression may itself begin and end with a parenthesis
                  [k |-> "str", v |-> "12"], [k |-> "str", v |-> "00501"], [k |-> "str", v |-> "1.50"],
                  [k |-> "str", v |-> "true"], [k |-> "str", v |-> "False"], [k |-> "int", v |-> "12345678901234567890"],
-                 [k |-> "expr", v |-> "(a) * (b)"], [k |-> "expr", v |-> "(now())"] >>
+                 [k |-> "expr", v |-> "(a) * (b)"], [k |-> "expr", v |-> "(now())"],
+                 \* backslash + letter inside an expression or a string: two characters, whatever the letter
+                 [k |-> "expr", v |-> "E'\\t' || '\\n'"], [k |-> "str", v |-> "C:\\new\\table"] >>
 Colors     == <<"", "", "#abc", "#A1B2C3", "#fff000">>
 PropKeys   == <<"owner", "pii", "k_3", "my key", "notes_key", "k[1]", "dir\\new", "fmt\\tspec">>      \* (backslash + n / t inside a quoted key: two characters)
 RefKinds   == <<">", "<", "-", "<>">>
 Actions    == <<"", "", "", "cascade", "no action", "restrict", "set null", "set default">>
 IdxTypes   == <<"", "", "btree", "hash", "gin", "gist", "brin", "spgist">>
-IdxNames   == <<"", "", "idx_1", "my index", "it's", "ix[0]">>
-Exprs      == <<"lower(name)", "id * 2", "now()", "(a) || (b)", "(lower(name))">>
+IdxNames   == <<"", "", "idx_1", "my index", "it's", "ix[0]", "ix\\new">>
+Exprs      == <<"lower(name)", "id * 2", "now()", "(a) || (b)", "(lower(name))", "replace(body, '\\r\\n', ' ')">>
 GroupNames == <<"g1", "my group", "TableGroup", "assets_g", "notes_g", "as">>      \* (names that START with a keyword of the grammar: as, note)
 StickyNames == <<"n1", "reminder_2", "v^2">>
 ProjNames  == <<"proj", "my project", "Project">>
@@ -88,9 +90,13 @@ Off(seed, key, n) == H(seed, key) % n          \* rotation of a pool: distinct p
 \* near misses: a table may reuse the NAME of its predecessor in another schema, and an alias may
 \* equal the name of a table that lives in a non-public schema (both are unambiguous DBML)
 BName(seed, t)   == TableNames[((Off(seed, 3, Len(TableNames)) + t) % Len(TableNames)) + 1]
-TSchema(seed, t) == Pick(seed, K(t, 0, 2), SchemaPool)
-TName(seed, t)   == IF t > 1 /\ Coin(seed, K(t, 0, 9), 25) /\ SchemaOf(TSchema(seed, t)) # SchemaOf(TSchema(seed, t - 1))
+\* a further near miss: the last table may carry, in a schema of its own, the very name the JOIN TABLE of a many-to-many reference
+\* between the first two tables gets ("users_orders"); nothing collides -- the join table lives in the left table's schema
+JoinNamesake(seed) == NTables(seed) >= 3 /\ Coin(seed, 91, 12)
+TSchema(seed, t) == IF JoinNamesake(seed) /\ t = NTables(seed) THEN "jn" ELSE Pick(seed, K(t, 0, 2), SchemaPool)
+TName0(seed, t)  == IF t > 1 /\ Coin(seed, K(t, 0, 9), 25) /\ SchemaOf(TSchema(seed, t)) # SchemaOf(TSchema(seed, t - 1))
                     THEN BName(seed, t - 1) ELSE BName(seed, t)
+TName(seed, t)   == IF JoinNamesake(seed) /\ t = NTables(seed) THEN TName0(seed, 1) \o "_" \o TName0(seed, 2) ELSE TName0(seed, t)
 TAlias(seed, t)  == IF Coin(seed, K(t, 0, 3), 40)
                     THEN IF Coin(seed, K(t, 0, 12), 12) /\ SchemaOf(TSchema(seed, t)) # "public" THEN TName(seed, t)
                     ELSE IF Coin(seed, K(t, 0, 11), 15)
@@ -169,14 +175,15 @@ RandEnum(seed, e) ==
    comment |-> ""]
 
 RandRef0(seed, r) ==
-  LET t1 == Num(seed, K(25 + r, 0, 1), 1, NTables(seed))
-      t2 == Num(seed, K(25 + r, 0, 2), 1, NTables(seed))
+  LET ns == JoinNamesake(seed) /\ r = 1          \* the reference whose join table has a namesake
+      t1 == IF ns THEN 1 ELSE Num(seed, K(25 + r, 0, 1), 1, NTables(seed))
+      t2 == IF ns THEN 2 ELSE Num(seed, K(25 + r, 0, 2), 1, NTables(seed))
       two == Coin(seed, K(25 + r, 0, 3), 25) /\ NCols(seed, t1) >= 2 /\ NCols(seed, t2) >= 2
       c1 == Num(seed, K(25 + r, 0, 4), 1, NCols(seed, t1))
       c2 == Num(seed, K(25 + r, 0, 5), 1, NCols(seed, t2))
   IN [d |-> "ref", name |-> Maybe(seed, K(25 + r, 0, 6), 35, <<"fk_1", "my fk", "Ref", "fk^2", "fk{1}", "{x}">>),
       left |-> ColAddr(seed, K(25 + r, 0, 8), t1, IF two THEN <<1, 2>> ELSE <<c1>>),
-      type |-> Pick(seed, K(25 + r, 0, 9), RefKinds),
+      type |-> IF ns THEN "<>" ELSE Pick(seed, K(25 + r, 0, 9), RefKinds),
       right |-> ColAddr(seed, K(25 + r, 0, 10), t2, IF two THEN <<2, 1>> ELSE <<c2>>),
       onupdate |-> Pick(seed, K(25 + r, 0, 11), Actions), ondelete |-> Pick(seed, K(25 + r, 0, 12), Actions),
       comment |-> ""]
